@@ -21,8 +21,10 @@ import json
 import os
 import random
 import re
+import shutil
 import subprocess
 import sys
+import tempfile
 import time
 from collections import Counter
 from pathlib import Path
@@ -82,39 +84,113 @@ def _strip_lean_comments(src: str) -> str:
     return "".join(out)
 
 
-def lake_build(clean: bool = False) -> tuple[bool, str, float]:
+def lake_build(clean: bool = False, target: str | None = None) -> tuple[bool, str, float]:
     t0 = time.time()
     lock = open(LEAN / ".build.lock", "w")
     fcntl.flock(lock, fcntl.LOCK_EX)
     try:
         if clean:
             subprocess.run(["lake", "clean"], cwd=LEAN, capture_output=True, text=True)
-        p = subprocess.run(["lake", "build"], cwd=LEAN, capture_output=True, text=True)
+        p = subprocess.run(["lake", "build"] + ([target] if target else []), cwd=LEAN, capture_output=True, text=True)
         return p.returncode == 0, (p.stdout + p.stderr)[-6000:], time.time() - t0
     finally:
         fcntl.flock(lock, fcntl.LOCK_UN)
         lock.close()
 
 
-# properties whose theorems read the emitted instruction codes: the enum -> instruction table of the source is
-# *translated* into Lean on every run and `Props/Tables.lean` re-proved against it
-TABLE_PROPS = {"C02", "C06", "C07"}
+# --------------------------------------------------------------------------- models *generated* from the source
+# Parts of the model are translated from the source text on every run (tools/gen_*.py) and a hand-written tie file
+# proves that the hand-written model equals the generated definitions.  When the generated text equals the committed
+# copy the tie is the library's own (already built, audited below); when it differs (the source changed), generator
+# output and tie are compiled in a private directory - never into the shared tree, so concurrent runs against
+# different trees cannot disturb each other.
+GEN_TIES = {
+    "table": {
+        "props": {"C02", "C06", "C07"},
+        "gen": "gen_code_table.py", "gen_file": "GscribModel/Gen/CodeTable.lean", "tie": "Tables",
+        "what": "the model's instruction codes no longer equal the table translated from gscrib/codes/gcode_mappings.py",
+    },
+    "state": {
+        "props": {"C02", "C03", "C05", "C06", "C07"},
+        "gen": "gen_state.py", "gen_file": "GscribModel/Gen/StateSrc.lean", "tie": "StateTie",
+        "what": "the builder model's state transitions no longer equal the GState methods translated from gscrib/gcode_state.py",
+    },
+}
 
 
-def build_generated_table() -> tuple[bool, str]:
-    """tools/gen_code_table.py (source text of gscrib/codes/gcode_mappings.py -> Gen/CodeTable.lean), then
-    `lake build GscribModel.Props.Tables`.  Not part of the root library: a changed table breaks only this."""
-    lock = open(LEAN / ".build.lock", "w")
-    fcntl.flock(lock, fcntl.LOCK_EX)
+def _print_axioms(module: str, names: list[str], env=None, cwd=None) -> dict:
+    tmp = Path(tempfile.mkdtemp(prefix="gscrib_audit_")) / "audit.lean"
+    tmp.write_text(f"import {module}\n" + "".join(f"#print axioms {n}\n" for n in names))
     try:
-        g = subprocess.run([sys.executable, str(VERIF / "tools" / "gen_code_table.py"), str(REPO)], capture_output=True, text=True)
-        if g.returncode != 0:
-            return False, "translator failed: " + (g.stdout + g.stderr)[-1200:]
-        p = subprocess.run(["lake", "build", "GscribModel.Props.Tables"], cwd=LEAN, capture_output=True, text=True)
-        return p.returncode == 0, (p.stdout + p.stderr)[-2500:]
+        cmd = ["lean", str(tmp)] if env else ["lake", "env", "lean", str(tmp)]
+        p = subprocess.run(cmd, cwd=(tmp.parent if env else (cwd or LEAN)), capture_output=True, text=True, env=env)
     finally:
-        fcntl.flock(lock, fcntl.LOCK_UN)
-        lock.close()
+        shutil.rmtree(tmp.parent, ignore_errors=True)
+    flat = re.sub(r"\s+", " ", p.stdout + p.stderr)
+    res = {}
+    for n in names:
+        m = re.search(r"'" + re.escape(n) + r"' depends on axioms: \[([^\]]*)\]", flat)
+        if m:
+            res[n] = [a.strip() for a in m.group(1).split(",") if a.strip()]
+        elif re.search(r"'" + re.escape(n) + r"' does not depend on any axioms", flat):
+            res[n] = []
+        else:
+            res[n] = None
+    return res
+
+
+def check_generated_tie(key: str) -> dict:
+    """-> {ok, log, theorems: {name: axioms|None}, regenerated: bool, forbidden: [...]}"""
+    t = GEN_TIES[key]
+    tie_src = LEAN / "GscribModel" / "Props" / f"{t['tie']}.lean"
+    names = [n for n in re.findall(r"^theorem\s+([A-Za-z_][\w.']*)", _strip_lean_comments(tie_src.read_text()), re.M)
+             if n.startswith(t["tie"] + "_")]          # the tie theorems proper (helper lemmas live in a namespace)
+    forbidden = [f"{tie_src.name}: {m.group(0).strip()}" for m in FORBIDDEN.finditer(_strip_lean_comments(tie_src.read_text()))]
+    g = subprocess.run([sys.executable, str(VERIF / "tools" / t["gen"]), str(REPO), "--stdout"], capture_output=True, text=True)
+    if g.returncode != 0:
+        return {"ok": False, "log": "translator refused the source: " + (g.stdout + g.stderr)[-1500:], "theorems": {}, "regenerated": True,
+                "forbidden": forbidden}
+    committed = LEAN / t["gen_file"]
+    same = committed.exists() and committed.read_text() == g.stdout and os.environ.get("VERIF_FORCE_PRIVATE_TIE") != "1"
+    if same:
+        ok, log, _ = lake_build(False, target=f"GscribModel.Props.{t['tie']}")
+        th = _print_axioms(f"GscribModel.Props.{t['tie']}", names) if ok else {}
+        return {"ok": ok, "log": log[-1500:], "theorems": th, "regenerated": False, "forbidden": forbidden}
+    # the source differs from the committed translation: compile translation and tie privately
+    ok0, log0, _ = lake_build(False)       # the library the generated file imports
+    tmp = Path(tempfile.mkdtemp(prefix="gscrib_gen_"))
+    try:
+        gen_mod = t["gen_file"][:-5].replace("/", ".")
+        src = tmp / t["gen_file"]
+        src.parent.mkdir(parents=True, exist_ok=True)
+        src.write_text(g.stdout)
+        out = tmp / "out"
+        out.mkdir()
+        # a package cannot be split over two search-path entries: mirror the built library by symbolic links, then
+        # replace the two modules compiled here
+        subprocess.run(["cp", "-rs", str(LEAN / ".lake" / "build" / "lib" / "lean" / "GscribModel"), str(out / "GscribModel")], check=True)
+        env = dict(os.environ, LEAN_PATH=str(out))
+        log = ""
+        ok = ok0
+        tie_copy = tmp / "GscribModel" / "Props" / tie_src.name
+        tie_copy.parent.mkdir(parents=True, exist_ok=True)
+        shutil.copy(tie_src, tie_copy)
+        for mod, path in ((gen_mod, src), (f"GscribModel.Props.{t['tie']}", tie_copy)):
+            if not ok:
+                break
+            o = out / (mod.replace(".", "/") + ".olean")
+            o.parent.mkdir(parents=True, exist_ok=True)
+            for ext in (".olean", ".ilean", ".olean.server", ".olean.private"):
+                (out / (mod.replace(".", "/") + ext)).unlink(missing_ok=True)
+            p = subprocess.run(["lean", str(path), "-o", str(o)], cwd=tmp, capture_output=True, text=True, env=env)
+            log += (p.stdout + p.stderr)
+            ok = p.returncode == 0 and o.exists()
+        th = _print_axioms(f"GscribModel.Props.{t['tie']}", names, env=env) if ok else {}
+        errs = "\n".join(l for l in log.splitlines() if "error" in l)[:1500]
+        return {"ok": ok, "log": (errs or log[-1500:]), "theorems": th, "regenerated": True, "forbidden": forbidden}
+    finally:
+        shutil.rmtree(tmp, ignore_errors=True)
+
 
 
 def props_file(prop: str) -> Path:
@@ -317,21 +393,6 @@ class Run:
                 self.discharged += 1
         if a["forbidden"]:
             self.discharged = 0
-        if self.prop in TABLE_PROPS:
-            okt, logt = build_generated_table()
-            if not okt:
-                self.obligations += 1
-                self.obligation_broken("Tables_step_emits_table", "the model's instruction codes no longer equal the table generated from "
-                                       "gscrib/codes/gcode_mappings.py: " + logt[-1200:])
-            else:
-                at = audit("Tables")
-                self.audit_info["generated_table"] = {"translator": "tools/gen_code_table.py", "axioms": at["theorems"]}
-                for n, ax in at["theorems"].items():
-                    self.obligations += 1
-                    if ax is None or not set(ax) <= ALLOWED_AXIOMS or at["forbidden"]:
-                        self.obligation_broken(n, f"axioms {ax} {at['forbidden'][:3]}")
-                    else:
-                        self.discharged += 1
         if self.thorough:
             mods = [
                 str(f.relative_to(LEAN))[:-5].replace("/", ".")
@@ -342,6 +403,26 @@ class Run:
             self.extra["leanchecker"] = {"modules": mods, "ok": p.returncode == 0, "s": round(time.time() - t, 1)}
             if p.returncode != 0:
                 self.obligation_broken("leanchecker", (p.stdout + p.stderr)[-800:])
+
+    def check_ties(self):
+        """obligations of the translator ties that serve this property (run even with --no-proof: they are what turns a
+        change of the translated source into a broken obligation, deterministically)"""
+        for key, t in GEN_TIES.items():
+            if self.prop not in t["props"]:
+                continue
+            r = check_generated_tie(key)
+            info = {"translator": "tools/" + t["gen"], "regenerated_differs_from_committed": r["regenerated"], "axioms": r["theorems"]}
+            self.audit_info.setdefault("generated_ties", {})[key] = info
+            if not r["ok"]:
+                self.obligations += 1
+                self.obligation_broken(f"{t['tie']} (translator tie)", t["what"] + ": " + r["log"][-1200:])
+                continue
+            for n, ax in r["theorems"].items():
+                self.obligations += 1
+                if ax is None or not set(ax) <= ALLOWED_AXIOMS or r["forbidden"]:
+                    self.obligation_broken(n, f"axioms {ax} {r['forbidden'][:3]}")
+                else:
+                    self.discharged += 1
 
     # ---- decision
     def finish(self, finding_predicates: dict | None = None, witnesses: dict | None = None) -> int:
@@ -449,6 +530,7 @@ class Run:
             "traces_validated_against_impl": self.traces_validated,
             "distribution": dict(sorted(self.dist.items())),
             "theorem_axioms": self.audit_info.get("axioms", {}),
+            "generated_ties": self.audit_info.get("generated_ties", {}),
             "lean_files": self.audit_info.get("files", []),
             "broken": [f"{b['kind']}:{b['name']}" for b in self.broken],
             "oracle_failures": len(self.failures),
